@@ -121,6 +121,10 @@ def bitfield_packets(names, rng, enums_by_width, count, sizes_ok=True, quick=Fal
     for w in widths:
         out.append(packet(names.new("Bs"), [scalar("a", w)]))
         out.append(packet(names.new("Br"), [reserved(w), scalar("a", 8)]))
+        # whole-octet reserved chunk AFTER other chunks (length guards must count what was
+        # already read)
+        out.append(packet(names.new("Br"), [scalar("a", 8), reserved(w), scalar("b", 8), scalar("c", 16)]))
+    out.append(packet(names.new("Br"), [scalar("a", 4), scalar("b", 4), reserved(8), scalar("c", 16), reserved(16)]))
     # every field width 1..63 in a two-field group
     for w in (range(1, 64, 2) if quick else range(1, 64)):
         w = w if not quick else (w if rng.random() < 0.5 else w + 1)
@@ -174,6 +178,9 @@ def array_packets(names, rng, enums8, enums16, structs, padding_ok=True, element
             if not dynamic:
                 out.append(packet(names.new("Ap"), [size_f("x", 8), array("x", **ekw), padding(12), scalar("t", 8)]))
             out.append(packet(names.new("Ap"), [array("x", size=2, **ekw), padding(20), scalar("t", 8)]))
+            # padded and followed by MORE data than the padding: a declared size beyond the
+            # padded slice but within the whole buffer must still be refused
+            out.append(packet(names.new("Ap"), [size_f("x", 8), array("x", **ekw), padding(8), array("rest", width=8)]))
         if elementsize_ok and dynamic:
             out.append(packet(names.new("Ae"), [elementsize_f("x", 8), count_f("x", 8), array("x", **ekw), scalar("t", 8)]))
             out.append(packet(names.new("Ae"), [elementsize_f("x", 8), size_f("x", 8), array("x", **ekw), scalar("t", 8)]))
@@ -198,12 +205,15 @@ def payload_packets(names, rng, enums8):
         out.append(packet(names.new("Pt"), [pf, array("t", width=8, size=3), typedef("e", e)]))
         out.append(packet(names.new("Ps"), [size_f(sid, 8), pf, scalar("t", 8)]))
         out.append(packet(names.new("Ps"), [scalar("a", 4), size_f(sid, 12), pf, array("r", width=8)]))
+        # fields after an unsized payload that are not whole octets each
+        out.append(packet(names.new("Pt"), [scalar("a", 8), pf, scalar("x", 4), scalar("y", 12)]))
+        out.append(packet(names.new("Pt"), [pf, scalar("x", 3), scalar("y", 5), scalar("z", 8)]))
     out.append(packet(names.new("Pm"), [size_f("_payload_", 8), payload("+2"), scalar("t", 8)]))
     out.append(packet(names.new("Pm"), [scalar("x", 3), size_f("_payload_", 5), payload("+1")]))
     return out
 
 
-def optional_packets(names, rng, enums8, enums16, s_static, s_sized):
+def optional_packets(names, rng, enums8, enums16, s_static, s_sized, by_w=None):
     out = []
     e8, e16 = enums8[0]["id"], enums16[0]["id"]
     out.append(packet(names.new("Op"), [
@@ -225,6 +235,16 @@ def optional_packets(names, rng, enums8, enums16, s_static, s_sized):
         array("rest", width=8)]))
     out.append(struct(names.new("Os"), [
         scalar("c", 1), scalar("k", 7), scalar("v", 64, cond=constraint("c", 1))]))
+    # every byte width in the LAST position (nothing after the optional field can hide a
+    # guard that asks for more bytes than the field has) and with one byte after it
+    for w in (8, 16, 24, 32, 40, 48, 56, 64):
+        v = w % 2
+        out.append(packet(names.new("Ow"), [scalar("c", 1), reserved(7), scalar("v", w, cond=constraint("c", v))]))
+        if w in (24, 40, 56):
+            out.append(packet(names.new("Ow"), [scalar("c", 1), reserved(7), scalar("v", w, cond=constraint("c", 1 - v)), scalar("t", 8)]))
+    for w in (24, 32):
+        for e in (by_w or {}).get(w, [])[:2]:
+            out.append(packet(names.new("Oe"), [scalar("c", 1), reserved(7), typedef("e", e["id"], cond=constraint("c", 1))]))
     return out
 
 
@@ -232,6 +252,9 @@ def typedef_packets(names, rng, enums8, s_static, s_sized, s_counted, customs):
     out = []
     out.append(packet(names.new("Td"), [typedef("s", s_static["id"]), typedef("z", s_sized["id"]), scalar("t", 8)]))
     out.append(packet(names.new("Td"), [scalar("a", 8), typedef("c", s_counted["id"]), typedef("e", enums8[0]["id"])]))
+    # a fixed-size struct that does not start the packet, between other static fields
+    out.append(packet(names.new("Td"), [scalar("a", 8), typedef("s", s_static["id"]), scalar("t", 8), payload()]))
+    out.append(packet(names.new("Td"), [scalar("a", 16), typedef("s", s_static["id"]), typedef("s2", s_static["id"]), scalar("t", 8)]))
     nested = struct(names.new("Sn"), [typedef("inner", s_sized["id"]), scalar("q", 8)])
     out.append(nested)
     out.append(packet(names.new("Td"), [typedef("n", nested["id"]), array("ns", type_id=nested["id"])]))
@@ -286,6 +309,33 @@ def inheritance_trees(names, rng, enums8):
     out.append(struct(names.new("Isc"), [scalar("v", 16)], parent_id=sp, constraints=[constraint("t", 1)]))
     out.append(struct(names.new("Isc"), [array("v", width=8)], parent_id=sp, constraints=[constraint("t", 2)]))
     out.append(packet(names.new("Isu"), [array("items", type_id=sp)]))
+    # a struct with a payload / a derived struct as the TYPE OF A FIELD: its size is the
+    # size of the whole chain, not of its own fields
+    isc = out[-3]["id"]
+    out.append(packet(names.new("Ist"), [scalar("h", 8), typedef("one", sp), scalar("t", 8)]))
+    out.append(packet(names.new("Ist"), [typedef("kid", isc), scalar("t", 8)]))
+    sw = names.new("Isw")
+    out.append(struct(sw, [size_f("_payload_", 8), payload(), typedef("kid", isc)]))
+    out.append(packet(names.new("Ist"), [size_f("ws", 8), array("ws", type_id=sw)]))
+    ip = names.new("Ip")
+    out.append(packet(ip, [scalar("k", 8), size_f("_payload_", 8), payload()]))
+    out.append(packet(names.new("Ic"), [typedef("kid", isc), typedef("one", sp)], parent_id=ip, constraints=[constraint("k", 1)]))
+    # 5b. a statically sized struct with TWO ancestors as a field type / an element type
+    gp = names.new("Isg")
+    out.append(struct(gp, [scalar("a", 8), size_f("_payload_", 8), payload()]))
+    par = names.new("Isg")
+    out.append(struct(par, [scalar("b", 8), size_f("_payload_", 8), payload()], parent_id=gp, constraints=[constraint("a", 1)]))
+    leaf = names.new("Isg")
+    out.append(struct(leaf, [scalar("c", 16)], parent_id=par, constraints=[constraint("b", 2)]))
+    out.append(packet(names.new("Ist"), [typedef("l", leaf), scalar("t", 8)]))
+    out.append(packet(names.new("Ist"), [size_f("ls", 8), array("ls", type_id=leaf), scalar("t", 8)]))
+    out.append(packet(names.new("Ist"), [array("ls", type_id=leaf, size=2), array("rest", width=8)]))
+    # 5c. the same with UNSIZED payloads in the ancestors (finding F49)
+    gp = names.new("Isu")
+    out.append(struct(gp, [scalar("a", 8), payload()]))
+    leaf = names.new("Isu")
+    out.append(struct(leaf, [scalar("c", 16)], parent_id=gp))
+    out.append(packet(names.new("Ist"), [typedef("l", leaf), scalar("t", 8)]))
     # 6. parent without payload, child without fields
     p = names.new("Ip")
     out.append(packet(p, [scalar("a", 8), scalar("b", 8)]))
@@ -317,7 +367,7 @@ def codec_module(seed, endianness, prefix="", tier="quick"):
     decls += bitfield_packets(names, rng, by_w, 32 if quick else 160, quick=quick)
     decls += array_packets(names, rng, enums8, enums16, structs, quick=quick)
     decls += payload_packets(names, rng, enums8)
-    decls += optional_packets(names, rng, enums8, enums16, structs[0], structs[1])
+    decls += optional_packets(names, rng, enums8, enums16, structs[0], structs[1], by_w)
     decls += typedef_packets(names, rng, enums8, structs[0], structs[1], structs[2], customs)
     decls += inheritance_trees(names, rng, enums8)
     # one packet per enum so that every enum is exercised inside a codec
@@ -504,6 +554,17 @@ def mutate_bytes(hexs, rng, n_random=4):
         if b:
             i = rng.randrange(len(b))
             out.append(b[:i] + bytes([b[i] ^ (1 << rng.randrange(8))]) + b[i + 1:])
+    # length-aware: a leading octet is often a size / count.  Make it claim exactly, one
+    # less and one more than what follows, and slightly more than it did -- both as is and
+    # with plenty of data appended (a guard against the wrong slice only shows when the
+    # buffer as a whole is long enough)
+    ext = b + bytes(rng.randrange(256) for _ in range(16))
+    for base in (b, ext):
+        for i in range(min(3, len(b))):
+            rem = len(base) - i - 1
+            for v in {rem - 1, rem, rem + 1, b[i] + 1, b[i] + 2, b[i] + 5, b[i] - 1}:
+                if 0 <= v <= 255 and v != base[i] and rng.random() < 0.6:
+                    out.append(base[:i] + bytes([v]) + base[i + 1:])
     return [x.hex() for x in out]
 
 
